@@ -243,47 +243,53 @@ def run(chk, tier, seed):
         else: coarse[k] = 1; first.append(c)
     chosen = first + rest[:max(0, budget - len(first))]
     W = World(vlib.scratch("c04_pki"))
-    s = netsim.Session(exe)
     n = 0; skipped = 0; byres = {}
-    try:
-        s.cmd("BNEW")
-        for c in chosen:
-            try:
-                cs = Case(W, c["p"], c["e"], rng)
-                line = cs.run(s)
-            except Unrealisable:
-                skipped += 1; continue
-            n += 1
-            f = netsim.kv(line); v = c["v"]
-            if "parse" in f:
-                chk.violation("unparsable-input", "the driver could not parse the realised signature / publications file: %s (%s)" % (line, describe(c)), dict(case=c, log=s.log[-8:])); continue
-            rc = int(f["rc"], 16); got = RES.get(int(f["res"]), f["res"]) if f["res"] != "-" else None
-            byres[v["res"]] = byres.get(v["res"], 0) + 1
-            payload = dict(case=c, line=line, log=[x[:600] for x in s.log[-12:]])
-            bad = [r for r in cs.requests if not r[2] or r[0] != cs.T]
-            if bad:
-                chk.violation("request:extend-during-verification", "the extension request sent during verification is wrong (aggregation time / HMAC): %s" % bad, payload)
-            if f.get("src") != "same":
-                chk.violation("signature-modified:" + c["p"], "verification changed the signature's serialization (%s)" % describe(c), payload)
-            if rc != 0:
-                if not (v["res"] == "NA" or v["mayErr"]):
-                    chk.violation("error-instead-of-%s:%s" % (v["res"], c["p"]), "verification returned error 0x%x where AnchorPolicy.tla expects %s %s (%s)" % (rc, v["res"], v["code"], describe(c)), payload)
-                elif got == "OK" or got == "FAIL":
-                    chk.violation("error-with-%s:%s" % (got, c["p"]), "verification returned error 0x%x together with result %s (%s)" % (rc, got, describe(c)), payload)
-                continue
-            if got != v["res"]:
-                chk.violation("%s-instead-of-%s:%s:%s" % (got, v["res"], c["p"], v["code"] if v["res"] == "FAIL" else f["code"]),
-                              "%s verdict %s %s, AnchorPolicy.tla says %s %s (%s)" % (c["p"], got, f["code"], v["res"], v["code"], describe(c)), payload)
-            elif got == "FAIL" and not (f["code"] in c["codes"] or ("INT" in c["codes"] and f["code"].startswith("INT-"))):
-                # any code of a condition the environment really contradicts is admitted (the property does not fix the order of the rules)
-                chk.violation("code:%s-not-in-%s:%s" % (f["code"], "+".join(sorted(c["codes"])), c["p"]), "%s FAIL code %s; the environment contradicts only %s (%s)" % (c["p"], f["code"], sorted(c["codes"]), describe(c)), payload)
-    except netsim.Died as ex:
-        chk.violation("crash:verify", "libksi crashed/aborted during verification\n%s" % str(ex)[-2500:], dict(log=[x[:600] for x in s.log[-30:]]))
-        s = None
-    if s is not None:
-        rc, err = s.close()
-        if rc != 0:
-            chk.violation("crash:verify:exit", "driver exited rc=%s (leak or sanitizer report)\n%s" % (rc, err[-2500:]), {})
+    # the verdict does not depend on the time zone of the process: the cases whose certificate's validity begins or ends within a second of the
+    # aggregation time are verified again in processes running 14 hours east and 12 hours west of UTC (POSIX TZ strings: no zone data needed)
+    edge = [c for c in chosen if c["e"]["rec"] == "auth" and c["e"]["cert"] in ("startsAtAggr", "endsAtAggr", "notYetValid", "expired") and c["p"] in ("KEY", "GENERAL")]
+    rng.shuffle(edge)
+    passes = [("", chosen)] + [(":TZ=" + tz, edge[:120 if tier == "quick" else 1200]) for tz in ("XXX-14", "XXX+12")]
+    for tzsuffix, chosen_now in passes:
+      s = netsim.Session(exe, extra_env=({"TZ": tzsuffix[4:]} if tzsuffix else None))
+      try:
+          s.cmd("BNEW")
+          for c in chosen_now:
+              try:
+                  cs = Case(W, c["p"], c["e"], rng)
+                  line = cs.run(s)
+              except Unrealisable:
+                  skipped += 1; continue
+              n += 1
+              f = netsim.kv(line); v = c["v"]
+              if "parse" in f:
+                  chk.violation("unparsable-input", "the driver could not parse the realised signature / publications file: %s (%s)" % (line, describe(c)), dict(case=c, log=s.log[-8:])); continue
+              rc = int(f["rc"], 16); got = RES.get(int(f["res"]), f["res"]) if f["res"] != "-" else None
+              byres[v["res"]] = byres.get(v["res"], 0) + 1
+              payload = dict(case=c, line=line, log=[x[:600] for x in s.log[-12:]])
+              bad = [r for r in cs.requests if not r[2] or r[0] != cs.T]
+              if bad:
+                  chk.violation("request:extend-during-verification", "the extension request sent during verification is wrong (aggregation time / HMAC): %s" % bad, payload)
+              if f.get("src") != "same":
+                  chk.violation("signature-modified:" + c["p"], "verification changed the signature's serialization (%s)" % describe(c), payload)
+              if rc != 0:
+                  if not (v["res"] == "NA" or v["mayErr"]):
+                      chk.violation("error-instead-of-%s:%s" % (v["res"], c["p"]), "verification returned error 0x%x where AnchorPolicy.tla expects %s %s (%s)" % (rc, v["res"], v["code"], describe(c)), payload)
+                  elif got == "OK" or got == "FAIL":
+                      chk.violation("error-with-%s:%s" % (got, c["p"]), "verification returned error 0x%x together with result %s (%s)" % (rc, got, describe(c)), payload)
+                  continue
+              if got != v["res"]:
+                  chk.violation("%s-instead-of-%s:%s:%s%s" % (got, v["res"], c["p"], v["code"] if v["res"] == "FAIL" else f["code"], tzsuffix),
+                                "%s verdict %s %s, AnchorPolicy.tla says %s %s (%s)" % (c["p"], got, f["code"], v["res"], v["code"], describe(c)), payload)
+              elif got == "FAIL" and not (f["code"] in c["codes"] or ("INT" in c["codes"] and f["code"].startswith("INT-"))):
+                  # any code of a condition the environment really contradicts is admitted (the property does not fix the order of the rules)
+                  chk.violation("code:%s-not-in-%s:%s" % (f["code"], "+".join(sorted(c["codes"])), c["p"]), "%s FAIL code %s; the environment contradicts only %s (%s)" % (c["p"], f["code"], sorted(c["codes"]), describe(c)), payload)
+      except netsim.Died as ex:
+          chk.violation("crash:verify", "libksi crashed/aborted during verification\n%s" % str(ex)[-2500:], dict(log=[x[:600] for x in s.log[-30:]]))
+          s = None
+      if s is not None:
+          rc, err = s.close()
+          if rc != 0:
+              chk.violation("crash:verify:exit", "driver exited rc=%s (leak or sanitizer report)\n%s" % (rc, err[-2500:]), {})
     chk.sample(dict(kind="verdicts replayed", by_result=byres)); chk.sample(dict(kind="case", case=chosen[len(chosen) // 2]))
     chk.add(evaluations=n, distinct_nontrivial=n, model_cases=len(cases), case_classes=len(groups), unrealisable=skipped, exhaustive=False,
             rule="TLC: all %d (policy, environment) pairs against 7 invariants. Replay: %d case of every coarse class, then a random fill of the fine classes up to the tier budget (4 500 / 45 000); fine class = (policy x verdict x code x signature shape x extender behaviour x certificate state "
